@@ -92,7 +92,13 @@ SenderUses ==     \* <<label, guard statements before the call, payout argument>
      <<"check-in-payout", <<>>, CallNamed("pick", <<MsgSender>>)>>}
 ModifierSets == {<<"none", <<>>, <<>>>>, <<"onlyOwner", <<ModAttr("onlyOwner", 0 - 1)>>, <<>>>>,
                  <<"onlyRole", <<ModAttr("onlyRole", 1)>>, <<Var("ADMIN")>>>>,
-                 <<"auth", <<ModAttr("auth", 0 - 1)>>, <<>>>>, <<"nonReentrant", <<ModAttr("nonReentrant", 0 - 1)>>, <<>>>>}
+                 <<"auth", <<ModAttr("auth", 0 - 1)>>, <<>>>>, <<"nonReentrant", <<ModAttr("nonReentrant", 0 - 1)>>, <<>>>>,
+                 \* several modifiers: the 'only' one first, last, in the middle; none of them
+                 <<"nonReentrant+onlyOwner", <<ModAttr("nonReentrant", 0 - 1), ModAttr("onlyOwner", 0 - 1)>>, <<>>>>,
+                 <<"onlyOwner+nonReentrant", <<ModAttr("onlyOwner", 0 - 1), ModAttr("nonReentrant", 0 - 1)>>, <<>>>>,
+                 <<"auth+onlyRole+whenOpen", <<ModAttr("auth", 0 - 1), ModAttr("onlyRole", 1), ModAttr("whenOpen", 0 - 1)>>, <<Var("ADMIN")>>>>,
+                 <<"auth+nonReentrant", <<ModAttr("auth", 0 - 1), ModAttr("nonReentrant", 0 - 1)>>, <<>>>>,
+                 <<"virtual+onlyOwner", <<[kind |-> "virtual"], ModAttr("onlyOwner", 0 - 1)>>, <<>>>>}
 DestructShapes ==
     {I("destruct:" \o x[1] \o ":" \o x[2] \o ":" \o x[3][1] \o ":" \o x[4][1] \o ":" \o x[5], "CP",
        FnDecl(x[1], IF x[1] = "function" THEN "kill" ELSE "", VisAttr(x[2]) \o x[3][2], NoParams, x[3][3], TRUE,
